@@ -7,6 +7,9 @@ What is proved: over the access table regenerated from the current source on eve
 every pair of conflicting accesses that can happen during concurrent task execution on a
 non-confined object holds a common mutex or is ordered by the `done` channel.  A finite
 table checked completely by the kernel (`decide`) is a proof about that abstraction.
+(Lockset rules of the extractor: a mutex is held from `Lock` to `Unlock` in source order, an
+`Unlock` inside a block that ends with `return` ends it for that block only, and a mutex held at
+every call site of an unexported, call-only helper is held inside it — `execution.waitsFor`.)
 What is not: the Go memory model, accesses through interfaces/closures the syntactic
 lockset cannot see, third-party code.  The search half is real: the harness is built with
 `-race` and runs concurrent workloads (domain `race`); a report is a violation with the
